@@ -368,6 +368,10 @@ def probe_recipes(family, tier):
                 # e.g. cos(50 deg) written as 0.64, moves by ~0.2 degrees)
                 for k in (range(4) if tier == "quick" else range(6)):
                     out.append({"file": f, "variant": "probe", "param": f"{q}:{sgn * d / 6:+g}", "seed": k})
+                # ... and closer still (a quantity computed from coordinates rounded to the input precision moves by
+                # a few 1e-4 A / 1e-3 degrees)
+                for k in (range(3) if tier == "quick" else range(6)):
+                    out.append({"file": f, "variant": "probe", "param": f"{q}:{sgn * d / 60:+g}", "seed": k})
                 if tier != "quick":
                     for k in range(3):
                         out.append({"file": f, "variant": "probe", "param": f"{q}:{sgn * d / 20:+g}", "seed": k})
